@@ -166,16 +166,33 @@ def aggregation_on_collision(chk):
             if isinstance(node, ast.For):
                 for st in node.body:
                     for sub in ast.walk(st):
-                        if isinstance(sub, ast.If) and isinstance(sub.test, ast.Compare) and len(sub.test.ops) == 1 and isinstance(sub.test.ops[0], ast.In):
-                            left = ast.unparse(sub.test.left)
+                        if not isinstance(sub, ast.If):
+                            continue
+                        test, body, orelse = sub.test, sub.body, sub.orelse
+                        if isinstance(test, ast.UnaryOp) and isinstance(test.op, ast.Not):
+                            test, body, orelse = test.operand, orelse, body
+                        if isinstance(test, ast.Compare) and len(test.ops) == 1 and isinstance(test.ops[0], ast.NotIn):
+                            test = ast.Compare(left=test.left, ops=[ast.In()], comparators=test.comparators)
+                            body, orelse = orelse, body
+                        if isinstance(test, ast.Compare) and len(test.ops) == 1 and isinstance(test.ops[0], ast.In):
+                            left = ast.unparse(test.left)
                             if not left.endswith(".name"):
                                 continue
-                            body_aug = [s_ for s_ in sub.body if isinstance(s_, ast.AugAssign) and isinstance(s_.op, ast.Add) and isinstance(s_.target, ast.Subscript) and ast.unparse(s_.target.slice) == left]
-                            else_asg = [s_ for s_ in sub.orelse if isinstance(s_, ast.Assign) and isinstance(s_.targets[0], ast.Subscript) and ast.unparse(s_.targets[0].slice) == left]
+
+                            def adds(s_):
+                                if isinstance(s_, ast.AugAssign) and isinstance(s_.op, ast.Add) and isinstance(s_.target, ast.Subscript) and ast.unparse(s_.target.slice) == left:
+                                    return s_.value
+                                if isinstance(s_, ast.Assign) and isinstance(s_.targets[0], ast.Subscript) and ast.unparse(s_.targets[0].slice) == left and isinstance(s_.value, ast.BinOp) and \
+                                        isinstance(s_.value.op, ast.Add) and ast.unparse(s_.value.left) == ast.unparse(s_.targets[0]):
+                                    return s_.value.right
+                                return None
+
+                            body_aug = [adds(s_) for s_ in body if adds(s_) is not None]
+                            else_asg = [s_ for s_ in orelse if isinstance(s_, ast.Assign) and isinstance(s_.targets[0], ast.Subscript) and ast.unparse(s_.targets[0].slice) == left and adds(s_) is None]
                             if not body_aug and not else_asg:
                                 continue
                             n += 1
-                            same = bool(body_aug) and bool(else_asg) and ast.unparse(body_aug[0].value) == ast.unparse(else_asg[0].value)
+                            same = bool(body_aug) and bool(else_asg) and ast.unparse(body_aug[0]) == ast.unparse(else_asg[0].value)
                             chk.ob("C18.R2", same, f.module, f.qual, "aggregate-on-collision", "same-named securities are aggregated: add on a name collision, assign otherwise, the same series in both",
                                    where="%s:%d" % (f.module, sub.lineno), found=ast.unparse(sub)[:160], sample={"site": f.qual})
     chk.floor_count("C18.R2:aggregation loops", n, 2)
